@@ -13,16 +13,16 @@ Definition spec_selection (m : list N) : option (list N) :=
   | _ => None
   end.
 
-(* RFC 1929: VER=1 ULEN UNAME PLEN PASSWD, nothing else (lengths 0..255; the RFC asks for >= 1,
-   zero-length fields are left to the server to refuse) *)
+(* RFC 1929 section 2: VER=1 ULEN UNAME PLEN PASSWD, nothing else; "UNAME ... 1 to 255", "PASSWD ... 1 to 255":
+   a zero-length user name or password is not a well-formed message *)
 Definition spec_userpass (m : list N) : option (list N * list N) :=
   match m with
   | 1 :: ulen :: rest =>
-    if (ulen <=? 255) && (ulen <? lenN rest) then
+    if (1 <=? ulen) && (ulen <=? 255) && (ulen <? lenN rest) then
       let u := takeN ulen rest in
       match dropN ulen rest with
       | plen :: p =>
-        if (plen <=? 255) && (lenN p =? plen) then Some (u, p) else None
+        if (1 <=? plen) && (plen <=? 255) && (lenN p =? plen) then Some (u, p) else None
       | [] => None
       end
     else None
@@ -47,7 +47,15 @@ Definition spec_request (m : list N) : option (N * N * list N * N) :=
   | _ => None
   end.
 
-(* extended authentication: VER=1 then TYPE(1) LENGTH(2) VALUE ... ending with TERM (0, length 0) *)
+(* extended authentication: VER=1 then TYPE(1) LENGTH(2) VALUE ... ending with TERM (0, length 0).
+   lib/README.md, "Available extensions": DOMAIN (1), USER_AGENT (3), PROXY_AUTH (4): length (0..MAX];
+   CLIENT_ADDRESS (2): length [4|16]; SNI_AUTH (5): length 0; MAX is what LENGTH(2) can say *)
+Definition spec_ext_length_ok (t l : N) : bool :=
+  if (t =? 1) || (t =? 3) || (t =? 4) then (1 <=? l) && (l <=? 65535)
+  else if t =? 2 then (l =? 4) || (l =? 16)
+  else if t =? 5 then l =? 0
+  else false.
+
 Fixpoint spec_ext_values (fuel : nat) (m : list N) : option (list (N * list N)) :=
   match fuel with
   | O => None
@@ -56,6 +64,7 @@ Fixpoint spec_ext_values (fuel : nat) (m : list N) : option (list (N * list N)) 
     | t :: l1 :: l2 :: rest =>
       let l := l1 * 256 + l2 in
       if t =? 0 then (if (l =? 0) && is_nil rest then Some [] else None)
+      else if negb (spec_ext_length_ok t l) then None
       else if lenN rest <? l then None
       else match spec_ext_values f (dropN l rest) with
            | None => None
